@@ -602,4 +602,23 @@ set_option maxRecDepth 100000 in
 example : (run wEx 64 (pristine storeEx) (histEx ++ [.echo 1, .read 1])).1.length = 4 := by
   decide +kernel
 
+/-! ### before fix C10-06: an embedded pointer made the record type unusable -/
+
+/-- `type VPE struct { *VLeaf; Z int64 }` -/
+def wPE : World :=
+  ⟨[⟨"VPE", "vpe", [⟨"VLeaf", "", true, .ptr "VLeaf"⟩, ⟨"Z", "z", false, .int .i64⟩]⟩,
+    ⟨"VLeaf", "vleaf", [⟨"I", "i", false, .int .i64⟩]⟩], []⟩
+
+set_option maxRecDepth 20000 in
+/-- C10-06: `(vpe z:4)` could not even be built before the fix (`fillJsonMap` → `NumField` of a
+pointer type), although the spec gives it a value — and the repaired walk (`toGoTop`) converts it,
+the embedded pointer being a field like any other. -/
+theorem embedded_pointer_counterexample :
+    LegacyToGo.constructibleLegacy wPE "vpe" = false ∧
+    (denTop wPE 64 none (.hash 1 "vpe" [(.sym [122], .int 4)])).isSome = true ∧
+    (match toGoTop wPE 64 none (.hash 1 "vpe" [(.sym [122], .int 4)]) with
+     | .ok (o, st) => (st.heap[o]?.bind (fun sv => getPath sv [1])).isSome
+     | .error _ => false) = true := by
+  decide +kernel
+
 end ZygoVerif.C10
